@@ -15,7 +15,7 @@ func init() {
 		Technique:   "guarded-sink / ordering rules on the SSA CFG of the link, unlink and discard handlers (recorded Active flag versus backend effect), of snapstate.Set and of the removal task generator",
 		Explanation: "Structural necessary conditions for 'the recorded snap state matches the system': (R1) every handler that links or unlinks records the matching Active value (true after LinkSnap, false after UnlinkSnap) before its state write, and writes the state only after the backend effect succeeded (shared with C10-R5); (R2) doDiscardSnap never discards the active current revision, removes from the recorded sequence exactly the task's revision, writes the state only after the files were removed, and when the last revision goes also removes mount units, configuration and the snap directory before that write; (R3) snapstate.Set deletes a snap's entry exactly when given nil or an empty sequence, and otherwise stores the marshalled state under the snap's name; (R4) discard-snap tasks are created only by removeInactiveRevision, and snap removal orders the unlink before the discards.",
 		NotDecided:  "a cross-check of the recorded state against a model of the file system over arbitrary histories; what the backend actually does; component state.",
-		Run:         runC11,
+		Run:         func(c *Ctx) { runC11(c); runC11x(c) },
 	})
 }
 
